@@ -135,6 +135,8 @@ GEN = {
     "NINF": lambda r: r.choice(["-inf", "-Inf", "-Infinity", "-infinity"]),
     "OVERFLOW": lambda r: r.choice(["1e999", "9.9e400", f"{r.randint(1, 9)}e{r.randint(400, 9999)}"]),
     "UNDERFLOW": lambda r: r.choice(["1e-999", "2.5e-400", f"{r.randint(1, 9)}e-{r.randint(400, 9999)}"]),
+    "DIGITLIKE": lambda r: r.choice(["\u00b2", "10\u00b3", "\u2460", "\u2460\u2461\u2462\u2463", "202\u00b2", "\u00bd", "1\u00bd", "\u4e94", "\u2167", "\u2488", "\u2776", "\u2080", "1\u2070", "\u3007",
+                                      "\u00b9\u00b2:\u00b3\u2070:\u2074\u2075", "\u2460\u2461\u2462\u2463-\u2460\u2461-\u2460\u2461"]),
     "TIME": _time,
     "TIME_ZONED": lambda r: _time(r) + r.choice(["Z", "Z", "+00:00", "-00:00", f"+{r.randint(0, 12):02d}:{r.choice([0, 30, 45]):02d}", f"-{r.randint(0, 12):02d}:{r.choice([0, 30]):02d}"]),
     "BADTIME": lambda r: r.choice(["25:00:00", "12:60:00", "12:30:61", "99:99:99", f"{r.randint(24, 99)}:{r.randint(0, 59):02d}:{r.randint(0, 59):02d}",
@@ -251,6 +253,16 @@ def w_cases(items):
             p = build_node(unit, el, content, c["hasKids"], rules, dfas)
             if p is None:
                 break
+            if rep_i % 3 == 2:             # decorations content rules do not speak about: the node's own prefix, its registry entry
+                p.prefix = "ns0" if rep_i % 2 else "eml"
+                if rep_i % 2 == 0:
+                    p.add_namespace("eml", "eml://ecoinformatics.org/eml-2.1.1")
+                Node.store.pop(p.id, None)
+                if rep_i % 4 == 1:         # ... and where the node hangs: below foreign content of a metadata element
+                    holder = Node("metadata")
+                    wrap = Node("zzForeignWrapper")
+                    holder.add_child(wrap)
+                    wrap.add_child(p)
             ff, craised, errs = c01.validate_both(unit, el, p)
             Node.store.clear()
             n += 1
